@@ -1016,45 +1016,64 @@ func (e *Engine) minmax(isMin bool, t types.Type, x, y value) value {
 	panic(engineError{"min/max on unsupported type"})
 }
 
-// ---------- channels, goroutines, select (sequential model) ----------
+// ---------- channels, goroutines, select (cooperative threads, see threads.go) ----------
+
+func (e *Engine) chanSnap(ch *Chan) {
+	if e.initMode == 0 {
+		old := *ch
+		e.undo = append(e.undo, undoRec{f: func() { *ch = old }})
+	}
+}
+
+func (e *Engine) sendReady(ch *Chan) bool {
+	if ch.closed {
+		return true
+	}
+	if e.cfg.UnboundedChans {
+		return true
+	}
+	if ch.cap == 0 {
+		return ch.recvWaiting > 0 && len(ch.buf) == 0
+	}
+	return len(ch.buf) < ch.cap
+}
 
 func (e *Engine) chanSend(fr *frame, instr ssa.Instruction, ch *Chan, v value) {
 	if ch == nil {
-		panic(engineError{"send on nil channel (blocks forever)"})
+		e.block(func() bool { return false }, "send on nil channel")
+	}
+	if !e.sendReady(ch) {
+		e.block(func() bool { return e.sendReady(ch) }, "channel send")
 	}
 	if ch.closed {
 		panic(targetPanic{v: e.rtErr("send on closed channel"), rt: true, msg: "send on closed channel", pos: fr.posOf(instr)})
 	}
-	if len(ch.buf) >= ch.cap && !e.cfg.UnboundedChans {
-		panic(engineError{"send would block (sequential channel model) at " + fr.posOf(instr)})
-	}
-	ch.buf = append(ch.buf, v)
-	if e.initMode == 0 {
-		e.undo = append(e.undo, undoRec{f: func() { ch.buf = ch.buf[:len(ch.buf)-1] }})
-	}
+	e.chanSnap(ch)
+	ch.buf = append(ch.buf[:len(ch.buf):len(ch.buf)], v)
 }
 
 func (e *Engine) chanRecv(fr *frame, instr *ssa.UnOp, ch *Chan, commaOk bool) value {
 	if ch == nil {
-		panic(engineError{"receive on nil channel (blocks forever)"})
+		e.block(func() bool { return false }, "receive on nil channel")
 	}
 	elemT := instr.X.Type().Underlying().(*types.Chan).Elem()
+	if len(ch.buf) == 0 && !ch.closed {
+		ch.recvWaiting++
+		func() {
+			defer func() { ch.recvWaiting-- }()
+			e.block(func() bool { return len(ch.buf) > 0 || ch.closed }, "channel receive")
+		}()
+	}
 	if len(ch.buf) == 0 {
-		if ch.closed {
-			z := e.zero(elemT)
-			if commaOk {
-				return Tuple{z, e.ctx.fls}
-			}
-			return z
+		z := e.zero(elemT)
+		if commaOk {
+			return Tuple{z, e.ctx.fls}
 		}
-		panic(engineError{"receive would block (sequential channel model) at " + fr.posOf(instr)})
+		return z
 	}
 	v := ch.buf[0]
-	old := ch.buf
+	e.chanSnap(ch)
 	ch.buf = ch.buf[1:]
-	if e.initMode == 0 {
-		e.undo = append(e.undo, undoRec{f: func() { ch.buf = old }})
-	}
 	if commaOk {
 		return Tuple{v, e.ctx.tru}
 	}
@@ -1065,24 +1084,21 @@ func (e *Engine) chanClose(fr *frame, ch *Chan) {
 	if ch == nil || ch.closed {
 		panic(targetPanic{v: e.rtErr("close of nil or closed channel"), rt: true, msg: "close of nil/closed channel"})
 	}
+	e.chanSnap(ch)
 	ch.closed = true
-	if e.initMode == 0 {
-		e.undo = append(e.undo, undoRec{f: func() { ch.closed = false }})
-	}
 }
 
 func (e *Engine) goStmt(fr *frame, instr *ssa.Go, fn value, args []value) {
-	if !e.cfg.EagerGo {
-		panic(engineError{"go statement (enable eagerGo to run the goroutine to completion at the go statement) at " + fr.posOf(instr)})
+	if e.cfg.EagerGo {
+		// Run the goroutine to completion right here (sound when its only
+		// interaction with the parent is through unbounded FIFOs).
+		e.call(fr, instr.Pos(), fn, args)
+		return
 	}
-	// Run the goroutine to completion right here (sound when its only
-	// interaction with the parent is through unbounded FIFOs).
-	e.call(fr, instr.Pos(), fn, args)
+	e.spawn(fr, instr.Pos(), fn, args)
 }
 
-func (e *Engine) selectOp(fr *frame, instr *ssa.Select) value {
-	// sequential model: pick the first ready case; default if none
-	c := e.ctx
+func (e *Engine) selectReady(fr *frame, instr *ssa.Select) int {
 	for i, st := range instr.States {
 		ch := fr.get(st.Chan).(*Chan)
 		if ch == nil {
@@ -1090,52 +1106,68 @@ func (e *Engine) selectOp(fr *frame, instr *ssa.Select) value {
 		}
 		if st.Dir == types.RecvOnly {
 			if len(ch.buf) > 0 || ch.closed {
-				r := Tuple{c.Const(64, uint64(i)), nil}
-				elemT := st.Chan.Type().Underlying().(*types.Chan).Elem()
-				var recvOk bool
-				var v value
-				if len(ch.buf) > 0 {
-					v = ch.buf[0]
-					old := ch.buf
-					ch.buf = ch.buf[1:]
-					e.undo = append(e.undo, undoRec{f: func() { ch.buf = old }})
-					recvOk = true
-				} else {
-					v = e.zero(elemT)
-				}
-				r[1] = c.Bool(recvOk)
-				for j, st2 := range instr.States {
-					if st2.Dir == types.RecvOnly {
-						if j == i {
-							r = append(r, v)
-						} else {
-							r = append(r, e.zero(st2.Chan.Type().Underlying().(*types.Chan).Elem()))
-						}
-					}
-				}
-				return r
+				return i
 			}
-		} else {
-			if len(ch.buf) < ch.cap || e.cfg.UnboundedChans {
-				e.chanSend(fr, instr, ch, fr.get(st.Send))
-				r := Tuple{c.Const(64, uint64(i)), c.fls}
-				for _, st2 := range instr.States {
-					if st2.Dir == types.RecvOnly {
-						r = append(r, e.zero(st2.Chan.Type().Underlying().(*types.Chan).Elem()))
-					}
-				}
-				return r
-			}
+		} else if e.sendReady(ch) {
+			return i
 		}
 	}
-	if !instr.Blocking {
-		r := Tuple{c.Const(64, uint64(^uint64(0))), c.fls}
-		for _, st2 := range instr.States {
+	return -1
+}
+
+func (e *Engine) selectOp(fr *frame, instr *ssa.Select) value {
+	c := e.ctx
+	zeros := func(r Tuple, chosen int, v value) Tuple {
+		for j, st2 := range instr.States {
 			if st2.Dir == types.RecvOnly {
-				r = append(r, e.zero(st2.Chan.Type().Underlying().(*types.Chan).Elem()))
+				if j == chosen {
+					r = append(r, v)
+				} else {
+					r = append(r, e.zero(st2.Chan.Type().Underlying().(*types.Chan).Elem()))
+				}
 			}
 		}
 		return r
 	}
-	panic(engineError{"select would block (sequential channel model) at " + fr.posOf(instr)})
+	i := e.selectReady(fr, instr)
+	if i < 0 {
+		if !instr.Blocking {
+			return zeros(Tuple{c.Const(64, ^uint64(0)), c.fls}, -1, nil)
+		}
+		// announce ourselves as a waiting receiver on every receive case
+		var recvs []*Chan
+		for _, st := range instr.States {
+			if ch := fr.get(st.Chan).(*Chan); ch != nil && st.Dir == types.RecvOnly {
+				ch.recvWaiting++
+				recvs = append(recvs, ch)
+			}
+		}
+		func() {
+			defer func() {
+				for _, ch := range recvs {
+					ch.recvWaiting--
+				}
+			}()
+			e.block(func() bool { return e.selectReady(fr, instr) >= 0 }, "select")
+		}()
+		i = e.selectReady(fr, instr)
+	}
+	st := instr.States[i]
+	ch := fr.get(st.Chan).(*Chan)
+	if st.Dir == types.RecvOnly {
+		elemT := st.Chan.Type().Underlying().(*types.Chan).Elem()
+		var v value
+		recvOk := false
+		if len(ch.buf) > 0 {
+			v = ch.buf[0]
+			e.chanSnap(ch)
+			ch.buf = ch.buf[1:]
+			recvOk = true
+		} else {
+			v = e.zero(elemT)
+		}
+		return zeros(Tuple{c.Const(64, uint64(i)), c.Bool(recvOk)}, i, v)
+	}
+	e.chanSend(fr, instr, ch, fr.get(st.Send))
+	return zeros(Tuple{c.Const(64, uint64(i)), c.fls}, -1, nil)
 }
